@@ -589,6 +589,24 @@ Theorem C18_failed_op_visible_refuted :
 Proof. exact step_io_prefix_visible. Qed.
 Print Assumptions C18_failed_op_visible_refuted.
 
+(* DynamicStore (store.go; DetectDefaultNativeStore off): an address routed to a
+   credential helper or to the configured credsStore never touches the store or
+   the config file; with no helper for any address and no credsStore, the
+   DynamicStore IS the file store with DisablePut = not AllowPlaintextPut, over
+   every history of Get/Put/Delete -- so all theorems above apply to it *)
+Theorem C18_dynamic_store :
+  forall (enc : str -> str) (dec : str -> option str) allow helpers,
+    (forall st o h, ds_route helpers st (op_addr o) = Some h -> (forall s, o <> SetCs s) ->
+                    ds_step enc dec allow helpers st o = (st, RNative)) /\
+    (forall st h, (forall a, helper_of helpers a = []) -> m_cs (st_mem st) = [] -> Forall dyn_op h ->
+                  ds_run enc dec allow helpers st h = fs_run enc dec (negb allow) st h).
+Proof.
+  intros enc dec allow helpers. split.
+  - intros st o h. exact (ds_native_untouched enc dec allow helpers st o h).
+  - intros st h. exact (ds_run_file enc dec allow helpers h st).
+Qed.
+Print Assumptions C18_dynamic_store.
+
 (* the defect this check found (fixed on the repository branch): before the fix
    a config file holding the JSON value null made the first save panic *)
 Theorem C18_null_document_refuted :
